@@ -31,7 +31,7 @@ ClassesOf(type) ==
     [] type \in {"uint16", "uint32", "uint64"} -> {"zero", "max"}
     [] type = "int64"         -> {"zero", "one", "minusOne", "min", "max"}
     [] type = "bool"          -> {"flip"}
-    [] type = "string"        -> {"empty", "long", "nonascii", "foreign"}
+    [] type = "string"        -> {"empty", "long", "nonascii", "foreign", "b64of33", "b64of65"}   \* base64 of 33 / 65 arbitrary bytes: the shape of a key / a signature
     [] type = "address"       -> {"zero", "self", "contract", "stranger"}
     [] type = "tokenStandard" -> {"zero", "znn", "qsr", "unknown", "foreign"}
     [] type = "hash"          -> {"zero", "unknown", "foreign"}
